@@ -1,7 +1,7 @@
 from __future__ import annotations
 
 import sys
-from asyncio import create_task
+from asyncio import CancelledError, create_task
 from contextvars import ContextVar
 from functools import partial, update_wrapper
 from inspect import signature
@@ -66,6 +66,9 @@ class _middleware_wrapper(Generic[FnP, FnR]):  # noqa: N801
         self.name = name or fn.__name__
         self.parameters = signature(fn).parameters.keys()
         self._repid_signal_emitter: Callable[[str, dict[str, Any]], Coroutine] | None = None
+        # receives the result of a call which has completed while its caller was cancelled
+        # before the result could reach it
+        self.on_undelivered_result: Callable[[FnR], None] | None = None
 
     async def call_set_context(self, *args: FnP.args, **kwargs: FnP.kwargs) -> FnR:
         IsInsideMiddleware.set(True)  # noqa: FBT003
@@ -86,11 +89,24 @@ class _middleware_wrapper(Generic[FnP, FnR]):  # noqa: N801
 
         # run function inside of a separate context created by `asyncio.create_task()`
         # inside of this context IsInsideMiddleware variable will be set to True
-        result = await create_task(self.call_set_context(*args, **kwargs))
-        # whatever the function returns can be seen as `result` kwarg in `after` signal
-        signal_kwargs.update({"result": result})
+        task = create_task(self.call_set_context(*args, **kwargs))
+        try:
+            result = await task
+            # whatever the function returns can be seen as `result` kwarg in `after` signal
+            signal_kwargs.update({"result": result})
 
-        # emit `after` signal
-        await self._repid_signal_emitter(f"after_{self.name}", signal_kwargs)
+            # emit `after` signal
+            await self._repid_signal_emitter(f"after_{self.name}", signal_kwargs)
+        except CancelledError:
+            # the caller was cancelled after the function had completed: its result is on its way
+            # to nobody - pass it to the one who can take care of it (a consumer keeps the message)
+            if (
+                self.on_undelivered_result is not None
+                and task.done()
+                and not task.cancelled()
+                and task.exception() is None
+            ):
+                self.on_undelivered_result(task.result())
+            raise
 
         return result
